@@ -104,3 +104,30 @@ MUTS += [
  dict(name='c04-pebble-nosync', props=['C04'], edits=[('internal/logdb/kv/pebble/kv_pebble.go', '''	wo := &pebble.WriteOptions{Sync: true}''', '''	wo := &pebble.WriteOptions{Sync: false}''')]),
  dict(name='c04-tan-skip-sync-on-state', props=['C04'], edits=[('internal/tan/db.go', '''		len(u.EntriesToSave) > 0 || stateSyncChange(u.State, st)''', '''		len(u.EntriesToSave) > 0''')]),
 ]
+
+MUTS += [
+ dict(name='c20-skip-checkmembers', props=['C20'], edits=[('tools/import.go', '''	if err := checkMembers(oldss.Membership, memberNodes); err != nil {
+		return err
+	}''', '''	if err := checkMembers(oldss.Membership, memberNodes); err != nil && len(memberNodes) > 3 {
+		return err
+	}''')]),
+ dict(name='c20-unlisted-not-removed', props=['C20'], edits=[('tools/import.go', '''	for nid := range old.Membership.Addresses {
+		_, ok := members[nid]
+		if !ok {
+			ss.Membership.Removed[nid] = true
+		}
+	}''', '''	for nid := range old.Membership.Addresses {
+		_, ok := members[nid]
+		if !ok && nid > 2 {
+			ss.Membership.Removed[nid] = true
+		}
+	}''')]),
+ dict(name='c20-ondisk-ignore-imported', props=['C20'], edits=[('internal/rsm/statemachine.go', '''	if init {
+		if ss.Imported {
+			return true
+		}
+		return ss.OnDiskIndex > s.onDiskInitIndex
+	}''', '''	if init {
+		return ss.OnDiskIndex > s.onDiskInitIndex
+	}''')]),
+]
